@@ -27,6 +27,16 @@ func fixtureDoc() []*metav1.APIResourceList {
 			{Name: "clusterthings/status", Namespaced: false, Kind: "ClusterThing"},
 			{Name: "nostatuses", Namespaced: true, Kind: "NoStatus"},
 		}},
+		// a second served version of two kinds (multi-version CRDs): same
+		// resource name and kind, other version
+		{GroupVersion: "ex.com/v2", APIResources: []metav1.APIResource{
+			{Name: "things", Namespaced: true, Kind: "Thing"},
+			{Name: "things/status", Namespaced: true, Kind: "Thing"},
+		}},
+		{GroupVersion: "apps.ex.com/v2", APIResources: []metav1.APIResource{
+			{Name: "widgets", Namespaced: true, Kind: "Widget"},
+			{Name: "widgets/status", Namespaced: true, Kind: "Widget"},
+		}},
 		{GroupVersion: "v1", APIResources: []metav1.APIResource{
 			{Name: "configmaps", Namespaced: true, Kind: "ConfigMap"},
 			{Name: "pods", Namespaced: true, Kind: "Pod"},
@@ -71,6 +81,9 @@ var (
 	PodRes       = fixtureRM.Get("v1", "pods")
 	NamespaceRes = fixtureRM.Get("v1", "namespaces")
 	WidgetRes    = fixtureRM.Get("apps.ex.com/v1", "widgets")
+	// the same kinds at their second served version
+	ThingV2Res  = fixtureRM.Get("ex.com/v2", "things")
+	WidgetV2Res = fixtureRM.Get("apps.ex.com/v2", "widgets")
 )
 
 func AllResources() []*dynamicdiscovery.APIResource {
